@@ -28,6 +28,8 @@ Record obs := {
                                after the polling bound *)
   o_released : bool;        (* a never-answering stub had to be released by the harness's watchdog:
                                its context was still alive long after the endpoint timeout *)
+  o_rb : option Z;          (* routed requests: when the handler's request builder (the RequestBuilder
+                               handed to the mux handler factory) was entered; None: not instrumented *)
   o_tainted : bool          (* the machine was too slow for "at once" to mean "before every deadline":
                                the harness measured a scheduling stall while the case ran; wall-clock
                                comparisons say nothing then *)
@@ -72,8 +74,15 @@ Section Spec.
        exists x, k_dl k = Some x /\ bound_ok c (min_inv calls) (min_inv (calls_of (k_be k) calls)) (k_be k) x) /\
     (derived c (k_be k) = true -> k_done_after k = true /\ k_chain_done k = true).
 
+  (* the endpoint clock starts at the arrival: before the handler builds the proxy request, so
+     whatever time the request builder takes is counted.  r: when the builder was entered *)
+  Definition builder_ok (c : config) (o : obs) : Prop :=
+    forall r, o_rb o = Some r -> routed c = true ->
+      0 <= r /\ forall k x, In k (o_calls o) -> k_dl k = Some x -> exists t, 0 <= t <= r /\ x <= t + c_T c.
+
   Definition Spec (c : config) (slack : Z) (o : obs) : Prop :=
     o_returned o = true /\ o_released o = false /\ o_leaked o = O /\
+    builder_ok c o /\
     (forall k, In k (o_calls o) -> call_ok c (o_calls o) k) /\
     (o_tainted o = false -> forall d, max_dl (o_calls o) = Some d -> o_ret o <= d + slack) /\
     (o_tainted o = false -> forall i, In i (must_keys c) -> In i (o_keys o)).
@@ -96,8 +105,15 @@ Section Spec.
 
   Definition mem_nat (x : nat) (l : list nat) : bool := existsb (Nat.eqb x) l.
 
+  Definition builder_b (c : config) (o : obs) : bool :=
+    match o_rb o with
+    | Some r => negb (routed c) ||
+                ((0 <=? r) && forallb (fun k => match k_dl k with Some x => x <=? r + c_T c | None => true end) (o_calls o))
+    | None => true
+    end.
+
   Definition spec_b (c : config) (slack : Z) (o : obs) : bool :=
-    o_returned o && negb (o_released o) && Nat.eqb (o_leaked o) 0 &&
+    o_returned o && negb (o_released o) && Nat.eqb (o_leaked o) 0 && builder_b c o &&
     forallb (call_b c (o_calls o)) (o_calls o) &&
     (o_tainted o || match max_dl (o_calls o) with Some d => o_ret o <=? d + slack | None => true end) &&
     (o_tainted o || forallb (fun i => mem_nat i (o_keys o)) (must_keys c)).
